@@ -9,10 +9,85 @@ import (
 
 var preDeltas = []int64{0, 0, 1, 1, 2, 3, 5, 8, 13, 21, 34, 55, 100, 300, 1000}
 
+// genC11Hammer: every client does the same kind of call on ONE shared Regexp, with inputs and replacement
+// strings drawn from a tiny set, so that all contention falls on one mechanism at a time (the replacement
+// cache with a size of 1-2 entries, the runner pool, one size class of the global buffer pools).
+func genC11Hammer(seed uint64, r *rng) *Scenario {
+	sc := &Scenario{Prop: "C11", Seed: seed, SchedSeed: mix64(seed, 11), OpStepCap: scriptOpCap, Mode: "hammer", PeriodNs: int64(time.Millisecond)}
+	var s ReSpec
+	var pp *pat
+	for tries := 0; tries < 10; tries++ {
+		s, pp = randSpec(r, false)
+		if v := pristine(s, &Op{Kind: OpGroupInfo}, scriptOpCap); !(len(v.res) > 8 && v.res[:8] == "COMPILE:") {
+			break
+		}
+	}
+	s.Cache = []int{1, 2, 2, 3, 0}[r.n(5)]
+	sc.Res = []ReSpec{s}
+	kinds := [][]int{{OpReplace}, {OpReplace, OpReplaceAt}, {OpMatchString, OpMatchRunes}, {OpFindString, OpFindRunes, OpWalk2}, {OpFindAllString, OpFindAllRunes},
+		{OpSplit, OpReplaceFunc}, {OpReplace, OpMatchString, OpFindAllString}, {OpCompatAllSubmatch, OpCompatAllIndex, OpCompatSubmatchIndex}}[r.n(8)]
+	nin := 1 + r.n(2)
+	ins := make([]InputSpec, nin)
+	for i := range ins {
+		ins[i] = genInput(r, pp, r.chance(1, 3))
+	}
+	nrep := 1 + r.n(3)
+	off := r.n(len(repls))
+	ncl := 3 + r.n(2)
+	est := int64(0)
+	for c := 0; c < ncl; c++ {
+		cl := Client{Cost: int64(100 + r.n(400))}
+		for i := 1 + r.n(4); i > 0; i-- {
+			op := Op{Kind: kinds[r.n(len(kinds))], Re: 0, In: ins[r.n(nin)], In2: ins[r.n(nin)], N: []int{-1, -1, 1, 2}[r.n(4)], Repl: repls[(off+r.n(nrep))%len(repls)]}
+			if op.Kind == OpReplaceAt {
+				op.StartAt = -1
+			}
+			v := pristine(s, &op, scriptOpCap)
+			if v.capped {
+				continue
+			}
+			est += v.steps
+			cl.Ops = append(cl.Ops, op)
+		}
+		sc.Clients = append(sc.Clients, cl)
+	}
+	if est < 100 {
+		est = 100
+	}
+	cfg := vsim.Config{Policy: vsim.Adversarial, MaxSteps: 50*est + 5_000_000, PoolMode: vsim.PoolRandom, MissProb: uint32(r.n(200)), DropProb: uint32(r.n(100))}
+	switch r.n(3) {
+	case 0:
+		cfg.Policy = vsim.Fair
+		cfg.Quantum = 1 + r.i64(30)
+	case 1:
+		cfg.Quantum = 3000 + r.i64(10000)
+		cfg.SwitchProb = uint32(200 + r.n(600))
+		cfg.WakeRunProb = 700
+	default:
+		cfg.Quantum = 3000 + r.i64(10000)
+		cfg.SwitchProb = uint32(r.n(100))
+		cfg.WakeRunProb = 700
+		for k := 1 + r.n(4); k > 0; k-- {
+			cfg.Preempts = append(cfg.Preempts, vsim.Preempt{AfterSync: 1 + r.i64(int64(10*sc.nops())+4), Delta: preDeltas[r.n(len(preDeltas))]})
+		}
+		sort.SliceStable(cfg.Preempts, func(i, j int) bool { return cfg.Preempts[i].AfterSync < cfg.Preempts[j].AfterSync })
+	}
+	if r.chance(1, 2) {
+		cfg.ScribbleProb = uint32(100 + r.n(924))
+	}
+	cfg.Alphabet = alphabetOf(sc)
+	sc.Cfg = cfg
+	nameOps(sc)
+	return sc
+}
+
 // genC11 builds a concurrent workload: 2-4 clients, 1-4 calls each, on shared Regexps
 // and on Regexps that share only the process-wide pools (DESIGN §3 C11).
 func genC11(seed uint64, tier string) *Scenario {
 	r := newRng(seed)
+	if r.chance(1, 6) {
+		return genC11Hammer(seed, r)
+	}
 	sc := &Scenario{Prop: "C11", Seed: seed, SchedSeed: mix64(seed, 11), OpStepCap: scriptOpCap}
 	p := int64(time.Millisecond)
 	sc.PeriodNs = p
